@@ -560,6 +560,8 @@ class Interp:
                 it = list(it.attrs['__iter__'])          # object whose class defines __iter__ over a stored sequence (a world iterates its layers)
             if isinstance(it, set):
                 it = sorted(it, key=repr)
+            if isinstance(it, str):
+                it = list(it)             # a string iterates over its characters
             if not isinstance(it, (list, tuple, PyIter)):
                 raise AnalysisError(f'{fr.mod.where(st)}: for-loop over a non-constant iterable')
             if len(it) > self.max_unroll:
@@ -1955,7 +1957,24 @@ class Interp:
                 return True
             if nm in ('array_equal', 'array_equiv'):
                 return False              # exact equality of values that are not identically equal: generic position
+            if nm == 'isclose' and all(is_num(a_) or isinstance(a_, ArrBox) for a_ in args[:2]):
+                # element-wise by definition: |a - b| <= atol + rtol |b| (numpy's defaults 1e-5, 1e-8) -- a mask like any other comparison
+                rtol = kwargs.get('rtol', args[2] if len(args) > 2 else Fraction(1, 10 ** 5)); atol = kwargs.get('atol', args[3] if len(args) > 3 else Fraction(1, 10 ** 8))
+                if is_num(rtol) and is_num(atol):
+                    a_, b_ = to_node(args[0]), to_node(args[1])
+                    r_ = X.cmp('<=', X.fn('abs', X.add(a_, X.neg(b_))), X.add(to_node(atol), X.mul(to_node(rtol), X.fn('abs', b_))))
+                    return ArrBox(r_) if any(isinstance(x_, ArrBox) for x_ in args[:2]) else r_
             return Opaque('tolerance test ' + nm)
+        if nm in ('logical_not', 'logical_and', 'logical_or') and args and all(is_num(a_) or isinstance(a_, (bool, ArrBox)) for a_ in args):
+            boxed = any(isinstance(a_, ArrBox) for a_ in args)
+            vs = [unbox(a_) for a_ in args]
+            if all(isinstance(v_, bool) for v_ in vs):
+                return (not vs[0]) if nm == 'logical_not' else ((vs[0] and vs[1]) if nm == 'logical_and' else (vs[0] or vs[1]))
+            ns = [to_node(v_) for v_ in vs]
+            if nm == 'logical_not': r_ = X.add(X.ONE, X.neg(ns[0]))
+            elif nm == 'logical_and': r_ = X.mul(ns[0], ns[1])
+            else: r_ = X.add(X.add(ns[0], ns[1]), X.neg(X.mul(ns[0], ns[1])))
+            return ArrBox(r_) if boxed else r_
         if nm == 'shape' and len(args) == 1:
             a_ = args[0]
             if isinstance(a_, ArrBox): return ('N',)           # array mode: every array lives on the one generic grid
